@@ -1,6 +1,7 @@
 """C15 — the value encoding is lossless and collision-free (static clauses, DESIGN §5 C15)."""
 from mirlib import *
 from rules import shared
+from rules.shared import deref
 
 META = {
     'title': 'The value encoding is lossless and collision-free',
@@ -93,6 +94,26 @@ def heap_types(ctx):
                 if is_binop(iha, 'Gt'):
                     T += 1
                 return {n for n, d in tyvars if d >= T}
+    # ... or the test is written over the tag (`matches!(self.tag(), Float | String | Array)`): evaluate it for every variant
+    fn = F.fn('object::Object::is_heap_allocated')
+    out = set()
+    okall = True
+    for name, _ in tyvars:
+        def decide_call(nm, argv, t, name=name):
+            if nm == 'object::Object::tag':
+                return ('enum', TYPE, name)
+            return None
+        vals = set()
+        for p in AbsInt(F, fn, decide_call=decide_call).run():
+            if p.exit == 'return':
+                r = deref(p.env, p.env.get('_0'))
+                vals.add(r[1] if isinstance(r, tuple) and r and r[0] == 'int' else None)
+        if vals == {1}:
+            out.add(name)
+        elif vals != {0}:
+            okall = False
+    if okall and out:
+        return out
     raise CheckerError('cannot read the heap threshold from is_heap_allocated')
 
 
@@ -358,20 +379,9 @@ def run(ctx, rep):
            'encoder %s / decoder %s %s' % (show(fenc[0]) if fenc else None, show(asf), why), fn_f.loc())
 
     # ---- heap partition ------------------------------------------------------------------------
-    iha = single_ret('object::Object::is_heap_allocated')
-    T = None
-    if is_binop(iha, 'Ge') and is_binop(uncast(iha[2]), 'BitAnd') and int_of(uncast(iha[2])[3]) == TM and _word(uncast(iha[2])[2]):
-        T = int_of(iha[3])
-        if T is None:
-            u = uncast(iha[3])
-            if u[0] == 'field' and u[1][0] == 'agg':
-                T = int_of(u[1][3][0])
-    elif is_binop(iha, 'Gt') and is_binop(uncast(iha[2]), 'BitAnd'):
-        t2 = int_of(iha[3])
-        T = t2 + 1 if t2 is not None else None
-    if T is None:
-        raise CheckerError('cannot read the heap threshold from is_heap_allocated: %s' % show(iha))
-    H1 = {n for n, d in tyvars if d >= T}
+    # the set of types is_heap_allocated answers `ja` for: read from its threshold comparison, or - when the test is written over
+    # the tag - evaluated for every variant (heap_types does both)
+    H1 = set(heap_types(ctx))
     H2 = set(heap_ctor_types)
     # Object::free: which variants are released (a destroy function, or a dealloc of that box type), and as which box type
     from rules.unsafe_inv import released_types
@@ -383,7 +393,7 @@ def run(ctx, rep):
     rep.table('heap_partition', {'is_heap_allocated': sorted(H1), 'allocating_constructors': sorted(H2), 'freed_by_free': sorted(H3),
                                  'immediate_constructors': sorted(imm_ctor_types)})
     rep.ob(H1 == H2, 'R15.4', 'object::Object::is_heap_allocated', 'threshold = allocating constructors',
-           'types with tag >= %d: %s; types built from allocate(): %s' % (T, sorted(H1), sorted(H2)), F.fn('object::Object::is_heap_allocated').loc())
+           'types is_heap_allocated answers for: %s; types built from allocate(): %s' % (sorted(H1), sorted(H2)), F.fn('object::Object::is_heap_allocated').loc())
     rep.ob(H1 == H3, 'R15.4', 'object::Object::free', 'freed types = heap types', 'free destroys %s, heap types %s' % (sorted(H3), sorted(H1)), fn_free.loc())
     rep.ob(not (imm_ctor_types & H1), 'R15.4', OBJ, 'immediate constructors below threshold',
            'immediate constructors build %s' % sorted(imm_ctor_types), F.fn('object::Object::is_heap_allocated').loc())
